@@ -1309,7 +1309,8 @@ class Canon:
         applied to side-effect-free arguments (what a helper taking `op: impl Fn` becomes once it is inlined)."""
         lets = {}
         for n in _walk(body):
-            if n.get("k") == "Let" and n.get("pat", {}).get("k") == "Bind" and not n["pat"].get("mut") and n.get("init") is not None:
+            if n.get("k") == "Let" and n.get("pat", {}).get("k") == "Bind" and n.get("init") is not None:
+                # (a `mut` binding of the closure - an `FnMut` parameter of an inlined helper - changes nothing: the body below writes nothing)
                 c = _strip(n["init"])
                 while c.get("k") == "AddrOf":
                     c = _strip(c["e"])
